@@ -313,8 +313,9 @@ Hopen(const char *path, int acc_mode, int16 ndds)
         if (acc_mode != DFACC_CREATE) { /* try to open existing file */
             file_rec->file = (hdf_file_t)HI_OPEN(file_rec->path, acc_mode);
             if (OPENERR(file_rec->file)) {
-                if (acc_mode & DFACC_WRITE) {
-                    /* Seems like the file is not there, try to create it. */
+                if ((acc_mode & DFACC_WRITE) && errno == ENOENT) {
+                    /* The file is not there, try to create it.  Any other
+                       failure must not truncate a file that does exist. */
                     new_file = TRUE;
                 }
                 else
